@@ -135,6 +135,13 @@ func c06Check(c *oracleCtx, src string, indents []string, steer bool) {
 				cfg := "p:" + in + ":" + semi
 				out := oaCompile(cfg, prog)
 				outs[cfg] = out
+				// asking for a source map as well does not change the formatted text (and so none of the checks below)
+				if withMap := oaCompile("pm"+cfg[1:], prog); withMap != out {
+					i := inp(cfg, out)
+					i["with-source-map"] = oaClip(withMap, 600)
+					c.violation("map-changes-format", "the formatted output differs when a source map is requested too: "+firstDiff(out, withMap), i)
+					continue
+				}
 				// the indentation option and the semicolon option are independent: their order in the call is irrelevant
 				if alt := compilerOfOrder(cfg, !compilerSemiFirst(cfg)).Compile(prog).Code; alt != out {
 					i := inp(cfg, out)
